@@ -124,7 +124,7 @@ def main():
                 print(rows[-1], flush=True)
         finally:
             sh(f"git -C {REPO} checkout -- .")
-    with open("/verif/tools/mutants_results.md", "w") as f:
+    with open(os.path.join(VERIF, "tools/mutants_results_last_run.md"), "w") as f:
         f.write("| mutant | check | result |\n|---|---|---|\n")
         for r in rows:
             f.write(f"| {r[0]} | {r[1]} | {r[2]} |\n")
